@@ -282,4 +282,169 @@ pub(crate) mod __verif {
         kani::cover!(syntax && unicode);
         kani::cover!(!syntax);
     }
+
+    /// ECMA-262 CharacterEscape (22.2.1, with Annex B.1.2 when not in Unicode mode), as a function of the first three code
+    /// points after the backslash. Returns None where this specification function does not decide the case
+    /// (`u` escapes - they have their own routine - and a legacy `\c` that is not followed by a letter, which the grammar
+    /// gives to the enclosing production), Some(Err) where the escape is a syntax error, Some(Ok((value, consumed))).
+    fn es_character_escape(c: [u32; 3], unicode: bool) -> Option<Result<(u32, usize), ()>> {
+        let dig = |x: u32| (0x30..=0x39).contains(&x);
+        let oct = |x: u32| (0x30..=0x37).contains(&x);
+        let hex = |x: u32| -> Option<u32> {
+            if (0x30..=0x39).contains(&x) { Some(x - 0x30) }
+            else if (0x41..=0x46).contains(&x) { Some(x - 0x41 + 10) }
+            else if (0x61..=0x66).contains(&x) { Some(x - 0x61 + 10) }
+            else { None }
+        };
+        let letter = |x: u32| (0x41..=0x5A).contains(&x) || (0x61..=0x7A).contains(&x);
+        let c0 = c[0];
+        // ControlEscape
+        match c0 {
+            0x66 => return Some(Ok((0xC, 1))),
+            0x6E => return Some(Ok((0xA, 1))),
+            0x72 => return Some(Ok((0xD, 1))),
+            0x74 => return Some(Ok((0x9, 1))),
+            0x76 => return Some(Ok((0xB, 1))),
+            _ => {}
+        }
+        if c0 == 0x63 {
+            // c AsciiLetter
+            if letter(c[1]) { return Some(Ok((c[1] % 32, 2))); }
+            return if unicode { Some(Err(())) } else { None };
+        }
+        if c0 == 0x75 { return None; }
+        if c0 == 0x30 && !dig(c[1]) { return Some(Ok((0, 1))); }
+        if c0 == 0x78 {
+            return match (hex(c[1]), hex(c[2])) {
+                (Some(a), Some(b)) => Some(Ok((a * 16 + b, 3))),
+                _ => if unicode { Some(Err(())) } else { Some(Ok((0x78, 1))) },
+            };
+        }
+        if !unicode && oct(c0) {
+            // Annex B LegacyOctalEscapeSequence
+            let d0 = c0 - 0x30;
+            if c0 == 0x30 && (c[1] == 0x38 || c[1] == 0x39) { return Some(Ok((0, 1))); }
+            if !oct(c[1]) { return Some(Ok((d0, 1))); }
+            let d1 = c[1] - 0x30;
+            if d0 >= 4 { return Some(Ok((d0 * 8 + d1, 2))); }
+            if oct(c[2]) { return Some(Ok((d0 * 64 + d1 * 8 + (c[2] - 0x30), 3))); }
+            return Some(Ok((d0 * 8 + d1, 2)));
+        }
+        let syntax = matches!(to_char_sat(c0), '^' | '$' | '\\' | '.' | '*' | '+' | '?' | '(' | ')' | '[' | ']' | '{' | '}' | '|' | '/');
+        if unicode {
+            if syntax { Some(Ok((c0, 1))) } else { Some(Err(())) }
+        } else {
+            // SourceCharacterIdentityEscape
+            Some(Ok((c0, 1)))
+        }
+    }
+
+    fn j5_check(c: [u32; 3], unicode: bool) {
+        let flags = api::Flags { unicode, ..Default::default() };
+        let mut p = parser(&c, flags);
+        let r = p.consume_character_escape();
+        let mut left = 0usize;
+        while p.input.next().is_some() { left += 1; }
+        match es_character_escape(c, unicode) {
+            None => {}
+            Some(Err(())) => assert!(r.is_err(), "ES: this escape is a syntax error"),
+            Some(Ok((v, used))) => {
+                assert!(matches!(&r, Ok(x) if *x == v), "ES: value denoted by the escape");
+                assert!(left == 3 - used, "ES: number of code points the escape consumes");
+            }
+        }
+        core::mem::forget((r, p));
+    }
+
+    // @obligation name=j5_escape_hex props=C18,C01:t fn=parse::Parser::consume_character_escape kind=bounded bound="\\x followed by every pair of code points, both modes" min_checks=100 w=3 timeout=1500
+    // \xHH denotes 16*H+H and consumes three code points; without two hex digits it is an error in Unicode mode and the
+    // identity escape `x` (one code point consumed, input restored) otherwise.
+    #[kani::proof]
+    #[kani::unwind(5)]
+    #[kani::stub(std::hash::RandomState::new, fixed_random_state)]
+    fn j5_escape_hex() {
+        let a: u32 = kani::any();
+        let b: u32 = kani::any();
+        kani::assume(a <= 0x10FFFF && b <= 0x10FFFF);
+        j5_check([0x78, a, b], kani::any());
+        kani::cover!(a == 0x41 && b == 0x66);
+    }
+
+    // @obligation name=j5_escape_control_letter props=C18,C01:t fn=parse::Parser::consume_character_escape kind=bounded bound="\\c followed by every code point, both modes" min_checks=100 w=3 timeout=1500
+    // \cX for an ASCII letter X denotes X % 32 and consumes two code points; in Unicode mode any other follower is an error.
+    #[kani::proof]
+    #[kani::unwind(5)]
+    #[kani::stub(std::hash::RandomState::new, fixed_random_state)]
+    fn j5_escape_control_letter() {
+        let a: u32 = kani::any();
+        kani::assume(a <= 0x10FFFF);
+        j5_check([0x63, a, 0x21], kani::any());
+        kani::cover!(a == 0x4A);
+    }
+
+    // @obligation name=j5_escape_legacy_octal_0 props=C18:t,C01:t fn=parse::Parser::consume_character_escape kind=bounded bound="digit 0 followed by every pair of code points, non-Unicode mode" min_checks=100 w=3 timeout=1500
+    // Annex B LegacyOctalEscapeSequence, \\0: 0 before 8/9 or a non-digit; otherwise the octal sequence 0dd.
+    #[kani::proof]
+    #[kani::unwind(5)]
+    #[kani::stub(std::hash::RandomState::new, fixed_random_state)]
+    fn j5_escape_legacy_octal_0() {
+        let a: u32 = kani::any();
+        let b: u32 = kani::any();
+        kani::assume(a <= 0x10FFFF && b <= 0x10FFFF);
+        j5_check([0x30, a, b], false);
+        kani::cover!(a == 0x37 && b == 0x37);
+    }
+
+    // @obligation name=j5_escape_legacy_octal_3 props=C18,C01:t fn=parse::Parser::consume_character_escape kind=bounded bound="digit 3 followed by every pair of code points, non-Unicode mode" min_checks=100 w=3 timeout=1500
+    // Annex B LegacyOctalEscapeSequence, first digit 3 (ZeroToThree): up to three octal digits.
+    #[kani::proof]
+    #[kani::unwind(5)]
+    #[kani::stub(std::hash::RandomState::new, fixed_random_state)]
+    fn j5_escape_legacy_octal_3() {
+        let a: u32 = kani::any();
+        let b: u32 = kani::any();
+        kani::assume(a <= 0x10FFFF && b <= 0x10FFFF);
+        j5_check([0x33, a, b], false);
+        kani::cover!(a == 0x37 && b == 0x37);
+    }
+
+    // @obligation name=j5_escape_legacy_octal_5 props=C18:t,C01:t fn=parse::Parser::consume_character_escape kind=bounded bound="digit 5 followed by every pair of code points, non-Unicode mode" min_checks=100 w=3 timeout=1500
+    // Annex B LegacyOctalEscapeSequence, first digit 5 (FourToSeven): at most two octal digits.
+    #[kani::proof]
+    #[kani::unwind(5)]
+    #[kani::stub(std::hash::RandomState::new, fixed_random_state)]
+    fn j5_escape_legacy_octal_5() {
+        let a: u32 = kani::any();
+        let b: u32 = kani::any();
+        kani::assume(a <= 0x10FFFF && b <= 0x10FFFF);
+        j5_check([0x35, a, b], false);
+        kani::cover!(a == 0x37 && b == 0x37);
+    }
+
+    // @obligation name=j5_escape_legacy_octal_8 props=C18:t,C01:t fn=parse::Parser::consume_character_escape kind=bounded bound="digit 8 followed by every pair of code points, non-Unicode mode" min_checks=100 w=3 timeout=1500
+    // Annex B LegacyOctalEscapeSequence, 8 is not octal: identity escape.
+    #[kani::proof]
+    #[kani::unwind(5)]
+    #[kani::stub(std::hash::RandomState::new, fixed_random_state)]
+    fn j5_escape_legacy_octal_8() {
+        let a: u32 = kani::any();
+        let b: u32 = kani::any();
+        kani::assume(a <= 0x10FFFF && b <= 0x10FFFF);
+        j5_check([0x38, a, b], false);
+        kani::cover!(a == 0x37 && b == 0x37);
+    }
+
+    // @obligation name=j5_escape_identity props=C18,C01:t fn=parse::Parser::consume_character_escape kind=complete domain="every code point other than x, c, u and the digits as the escaped character, both modes" min_checks=100 w=3 timeout=1500
+    // Control escapes f n r t v; identity escapes: in Unicode mode only syntax characters and `/` (anything else is an error),
+    // otherwise every character denotes itself; exactly one code point is consumed.
+    #[kani::proof]
+    #[kani::unwind(5)]
+    #[kani::stub(std::hash::RandomState::new, fixed_random_state)]
+    fn j5_escape_identity() {
+        let c0: u32 = kani::any();
+        kani::assume(c0 <= 0x10FFFF && c0 != 0x78 && c0 != 0x63 && c0 != 0x75 && !(0x30..=0x39).contains(&c0));
+        j5_check([c0, 0x41, 0x42], kani::any());
+        kani::cover!(c0 == 0x6E);
+        kani::cover!(c0 == 0x2F);
+    }
 }
